@@ -1052,3 +1052,29 @@ V("C04", "trigger_merge_duplicates", "fire", "R04.i", (Z, """            self_._
             ]
 """, """            self_._state_watchers += watchers
 """))
+
+V("C14", "edit_constant_restore_by_name_only", "fire", "R14.i", (Z, "            pobj.constant = True\n            # Some operations trigger", "            # Some operations trigger"))
+V("C14", "time_call_toggles_flag_by_hand", "fire", "R14.h", (P, """            with edit_constant(self):
+                self.time_type = time_type
+""", """            type_param = self.param.objects('existing').get('time_type')
+            type_param.constant = False
+            self.time_type = time_type
+            type_param.constant = True
+"""))
+V("C14", "async_ref_bypasses_constant_guard", "fire", "R14.f", (Z, """            if (self.constant or self.readonly) and (
+                iscoroutinefunction(val) or inspect.isgeneratorfunction(val)
+            ):
+                # An asynchronous reference has no current value that could be
+                # identical to the one held: reject it before it is scheduled.
+                raise TypeError("%s parameter '%s' cannot be modified" % (
+                    'Read-only' if self.readonly else 'Constant', name))
+""", ""), (Z, """                if self.readonly:
+                    raise TypeError("Read-only parameter '%s' cannot be modified" % name)
+                elif self.constant:
+                    raise TypeError("Constant parameter '%s' cannot be modified" % name)
+                if relink:""", """                if relink:"""))
+V("C14", "async_ref_applied_under_edit_constant", "fire", "R14.e", (Z, "                    with _syncing(self_.self, (pname,)):\n                        try:\n                            self_.update({pname: new_obj})", "                    with edit_constant(self_.self), _syncing(self_.self, (pname,)):\n                        try:\n                            self_.update({pname: new_obj})"))
+V("C13", "memo_cleared_in_place", "fire", "R13.f", (Z, "                private.params = {}", "                private.params.clear()"))
+V("C17", "parameter_getstate_drops_watchers", "fire", "R17.c", (Z, "        return {slot: getattr(self, slot) for slot in self.__class__._all_slots_}", "        state = {slot: getattr(self, slot) for slot in self.__class__._all_slots_}\n        state['watchers'] = {}\n        return state"))
+V("C17", "get_all_slots_skips_own_class", "fire", "R17.g", (Z, "    parent_param_classes = [c for c in classlist(class_)[1::]]", "    parent_param_classes = [c for c in classlist(class_)[1:-1]]"))
+V("C17", "benign_get_all_slots_mro_form", "benign", None, (Z, "    parent_param_classes = [c for c in classlist(class_)[1::]]", "    parent_param_classes = [c for c in inspect.getmro(class_)[-2::-1]]"))
